@@ -63,7 +63,11 @@ def translate():
         ("PhTraces", r"for element in self\.test_elements\.iter_mut\(\) \{ if let TestElement::Trace\(trace\) = element \{ if trace\.snapshot\.pc\.as_u16\(\) != pc \{ continue; \}"),
         ("PhAssertions", r"for element in self\.test_elements\.iter_mut\(\) \{ if let TestElement::Assertion\(assertion\) = element \{ if assertion\.snapshot\.pc\.as_u16\(\) != pc \{ continue; \}"),
         ("PhBrk", r"if self\.ram\.read\(\)\.unwrap\(\)\.ram\[self\.cpu\.get_program_counter\(\) as usize\] == (\d+) \{ return Ok\(ExecuteResult::TestSuccess\(self\.num_cycles\)\); \}"),
-        ("PhExecute", r"self\.cpu\.cycle\(self\.ram\.write\(\)\.unwrap\(\)\.deref_mut\(\)\); self\.num_cycles \+= 1 \+ self\.cpu\.get_remaining_cycles\(\) as usize; self\.cpu \.execute_instruction\(self\.ram\.write\(\)\.unwrap\(\)\.deref_mut\(\)\); Ok\(ExecuteResult::Running\)"),
+        ("PhExecute", r"let opcode = self\.ram\.read\(\)\.unwrap\(\)\.ram\[self\.cpu\.get_program_counter\(\) as usize\]; "
+                      r"self\.cpu\.cycle\(self\.ram\.write\(\)\.unwrap\(\)\.deref_mut\(\)\); self\.num_cycles \+= 1 \+ self\.cpu\.get_remaining_cycles\(\) as usize; "
+                      r"self\.cpu \.execute_instruction\(self\.ram\.write\(\)\.unwrap\(\)\.deref_mut\(\)\); "
+                      r"match opcode \{ (0x[0-9a-fA-F]+) => self\.call_depth \+= 1, (0x[0-9a-fA-F]+) => self\.call_depth = self\.call_depth\.saturating_sub\(1\), _ => \{\} \} "
+                      r"Ok\(ExecuteResult::Running\)"),
     ]
     pos = []
     brk = None
@@ -73,6 +77,8 @@ def translate():
             raise ShapeError("execute_instruction: phase %s not recognised" % name)
         if name == "PhBrk":
             brk = int(mm.group(1))
+        if name == "PhExecute":
+            jsr_op, rts_op = int(mm.group(1), 16), int(mm.group(2), 16)
         pos.append((mm.start(), name))
     order = [n for _, n in sorted(pos)]
     if "let pc = self.cpu.get_program_counter(); let registers = self.registers(); let flags = self.cpu.get_status_register();" not in exf:
@@ -88,6 +94,26 @@ def translate():
         raise ShapeError("execute_instruction: failure message/location changed")
     if "traces: self.formatted_traces.clone()," not in exf or "cpu: self.cpu.clone()," not in exf:
         raise ShapeError("execute_instruction: failure report changed")
+
+    # step_over / step_out / run_until_return (used by the debug adapter)
+    flat_tr = re.sub(r"\s+", " ", tr)
+    so = re.search(r"pub fn step_over\(&mut self\) -> MosResult<ExecuteResult> \{ let opcode = self\.ram\.read\(\)\.unwrap\(\)\.ram\[self\.cpu\.get_program_counter\(\) as usize\]; "
+                   r"match opcode \{ (0x[0-9a-fA-F]+) => \{ match self\.execute_instruction\(\)\? \{ ExecuteResult::Running => self\.run_until_return\(\), result => Ok\(result\), \} \} "
+                   r"_ => self\.execute_instruction\(\), \} \}", flat_tr)
+    if not so or int(so.group(1), 16) != jsr_op:
+        raise ShapeError("step_over has an unrecognised shape")
+    if not re.search(r"pub fn step_out\(&mut self\) -> MosResult<ExecuteResult> \{ if self\.call_depth == 0 \{ return Ok\(ExecuteResult::Running\); \} self\.run_until_return\(\) \}", flat_tr):
+        raise ShapeError("step_out has an unrecognised shape")
+    ru = re.search(r"fn run_until_return\(&mut self\) -> MosResult<ExecuteResult> \{ let mut nested_calls = 0; loop \{ "
+                   r"let opcode = self\.ram\.read\(\)\.unwrap\(\)\.ram\[self\.cpu\.get_program_counter\(\) as usize\]; "
+                   r"match self\.execute_instruction\(\)\? \{ ExecuteResult::Running => \{\} result => \{ return Ok\(result\); \} \} "
+                   r"match opcode \{ (0x[0-9a-fA-F]+) => nested_calls \+= 1, (0x[0-9a-fA-F]+) if nested_calls == 0 => return Ok\(ExecuteResult::Running\), "
+                   r"(0x[0-9a-fA-F]+) => nested_calls -= 1, _ => \{\} \} \} \}", flat_tr)
+    if not ru or [int(g, 16) for g in ru.groups()] != [jsr_op, rts_op, rts_op]:
+        raise ShapeError("run_until_return has an unrecognised shape")
+    uses = flat_tr.replace("pub fn verif_call_depth(&self) -> usize { self.call_depth }", "")
+    if "call_depth: 0," not in flat_tr or uses.count("self.call_depth") != 4:
+        raise ShapeError("call_depth is used in an unrecognised way")
 
     ma = re.sub(r"\s+", " ", strip_comments(read("mos/src/memory_accessor.rs")))
     mm = re.search(r"let lo = bytes\.first\(\); let hi = bytes\.get\(1\); match \(lo, hi\) \{ \(Some\(lo\), Some\(hi\)\) => Some\((\d+) \* \(\*(\w+) as i64\) \+ \(\*(\w+) as i64\)\), _ => None, \}", ma)
@@ -130,6 +156,9 @@ def translate():
            "Definition phase_order : list phase := [%s]." % "; ".join(order),
            "Definition end_of_test_opcode : Z := %d." % brk,
            "Definition assertion_fail_value : Z := %d." % fail_value,
+           "(* the opcodes the runner counts as opening / closing a subroutine call *)",
+           "Definition jsr_opcode : Z := %d." % jsr_op,
+           "Definition rts_opcode : Z := %d." % rts_op,
            "Definition ram16_combine (lo hi : Z) : Z := %d * %s + %s." % (weight, hi_name, lo_name),
            "Definition fn_ram : list N := %s." % text("ram"),
            "Definition fn_ram16 : list N := %s." % text("ram16"),
